@@ -93,8 +93,7 @@ Proof.
   - destruct (bit_at (rd_st r) bp) as [[ext|e]| |]; cbn [bind]; try reflexivity.
     destruct ext; [|apply er_st_run].
     destruct (r_normally_small m (r_src (rd_st r))) as [[n s]| |]; try reflexivity.
-    destruct (uadd m n 1) as [rn| |]; cbn [bind]; try reflexivity.
-    destruct (nx <? rn); apply er_st_run.
+    cbv zeta. destruct (nx <? N.min (n + 1) (two64 - 1)); apply er_st_run.
   - destruct opt as [[a b]|]; [destruct o|]; try reflexivity.
     destruct (bit_at (rd_st r) a) as [x| |]; reflexivity.
 Qed.
